@@ -17,14 +17,14 @@ CONSTANTS
   Sampled = FALSE
   MaxHist = 0
   TagsA = {"none", "v1", "junk"}
-  TagsB = {"none", "v1", "lim"}
+  TagsB = {"none", "v1"}
   TagsC = {"none"}
-  TagsQ = {"none", "q1"}
-  TagsG = {"none", "g1"}
+  TagsQ = {"none"}
+  TagsG = {"none"}
   PayA = {"none", "v2", "bad"}
-  PayB = {"none", "v2", "dup", "lim"}
+  PayB = {"none", "dup"}
   PayQ = {"none", "q1"}
-  PayG = {"none", "g2", "gbad"}
+  PayG = {"none"}
   WithGate = TRUE
   WithFault = TRUE
   WrongVerbs = FALSE
